@@ -38,7 +38,7 @@ type vShArr struct {
 	P [1]*vShIn
 }
 
-var vhShapes = []string{"PS", "PT", "SS", "SP", "M", "MS", "AP", "AS", "N.L", "N.P", "IF", "SA", "MA", "ST", "SI", "SIM", "IFS", "MI"}
+var vhShapes = []string{"PS", "PT", "SS", "SP", "M", "MS", "AP", "AS", "N.L", "N.P", "IF", "SA", "MA", "ST", "SI", "SIM", "IFS", "MI", "M2", "MS2"}
 
 // vhShapeBuild fills the chosen container with the payload x and
 // returns functions reading the payload back / mutating the cell in place.
@@ -242,6 +242,38 @@ func vhShapeBuild(o *vShape, shape string, x int64) (read func(*vShape) (int64, 
 			}, func(s *vShape) {
 				s.MI["k"].(*vShIn).X++
 			}
+	case "M2": // a map with several pointer entries (each must get its own copy) and a nil one
+		o.M = map[string]*vShIn{"a": {X: x}, "b": {X: x + 1}, "c": {X: x + 2}, "n": nil}
+		return func(s *vShape) (int64, bool) {
+				a, b, c := s.M["a"], s.M["b"], s.M["c"]
+				n, has := s.M["n"]
+				if len(s.M) != 4 || a == nil || b == nil || c == nil || !has || n != nil {
+					return 0, false
+				}
+				if a == b || b == c || a == c || b.X != a.X+1 || c.X != a.X+2 {
+					return 0, false
+				}
+				return a.X, true
+			}, func(s *vShape) {
+				s.M["a"].X++
+				s.M["b"].X++
+				s.M["c"].X++
+			}
+	case "MS2": // a map of slices with a nil entry next to non-nil ones
+		o.MS = map[string][]int64{"a": {x}, "b": {x + 1}, "n": nil}
+		return func(s *vShape) (int64, bool) {
+				n, has := s.MS["n"]
+				if len(s.MS) != 3 || len(s.MS["a"]) != 1 || len(s.MS["b"]) != 1 || !has || len(n) != 0 {
+					return 0, false
+				}
+				if s.MS["b"][0] != s.MS["a"][0]+1 {
+					return 0, false
+				}
+				return s.MS["a"][0], true
+			}, func(s *vShape) {
+				s.MS["a"][0]++
+				s.MS["b"][0]++
+			}
 	}
 	panic("shape")
 }
@@ -268,7 +300,7 @@ func VH_C14_clone() {
 // changes what later reads return; two reads share no mutable memory.
 func VH_C14_db() {
 	cfg := vhPickCfg()
-	shapes := []string{"PS", "PT", "SS", "SP", "M", "MS", "AP", "AS", "N.L", "N.P", "SA", "MA", "ST", "SI", "SIM", "IFS", "MI"}
+	shapes := []string{"PS", "PT", "SS", "SP", "M", "MS", "AP", "AS", "N.L", "N.P", "SA", "MA", "ST", "SI", "SIM", "IFS", "MI", "M2", "MS2"}
 	shape := shapes[vChoice("shape", len(shapes))]
 	dynamic := shape == "SI" || shape == "SIM" || shape == "IFS" || shape == "MI"
 	if dynamic && !cfg.cache && !cfg.async {
